@@ -205,13 +205,14 @@ def finish(mod, prop, tier, seed, specs, outs, wall):
           'queries=%d solver=%.1fs wall=%.1fs' % (prop, tier, len(specs), agg.obligations, agg.discharged,
                                                   agg.undecided, agg.core_undecided, agg.twins_ok, agg.twins,
                                                   agg.queries, sum(agg.solver_time.values()), wall))
+    if errors or herrors:
+        for spec, e in (errors + herrors)[:5]:
+            print('HARNESS-ERROR in case %s:\n%s' % (repr(spec)[:300], e[-1500:]), file=sys.stderr)
     if viol_lines:
         for l in viol_lines:
             print(l)
         return 1
     if errors or herrors:
-        for spec, e in (errors + herrors)[:5]:
-            print('HARNESS-ERROR in case %s:\n%s' % (repr(spec)[:300], e[-1500:]), file=sys.stderr)
         return 2
     if agg.core_undecided:
         print('INCONCLUSIVE: %d core obligations undecided' % agg.core_undecided, file=sys.stderr)
